@@ -20,7 +20,7 @@ RULE = ('A formula whose bounds are counted in sampling periods, a sampling peri
         'online, before and after pastify(), and equal R-dt computed with bound/period; a spelling may also write the same requirement text '
         'twice (two assertions) or call parse() twice before pastify(). Lanes reconfigure / reconfigure_unit: one object used under one sampling period / default unit, '
         're-configured (set_sampling_period, spec.unit, parse, pastify, reset) and used again equals a fresh object under the second configuration. Lane reject: one bound is moved off the sampling '
-        'grid (by a fraction of the period or by a fraction of a nanosecond; periods down to 1 ns): RTAMTException no later than the first evaluate/update, never a value. Lane dense: grid signals; bounds spelled with '
+        'grid (by a fraction of the period or by a fraction of a nanosecond; periods down to 1 ns): RTAMTException no later than the first evaluate/update, never a value. Lane dense_decimal: default unit ms / us, whole time stamps, bounds that are whole tens of the default unit also written as decimals of the coarser unit (1070 ms = 1.07 s): identical results. Lane dense: grid signals; bounds spelled with '
         'explicit units, and the whole case restated in another default unit (time stamps scaled): identical step functions. '
         'Non-trivial = the two spellings differ in >= 1 unit token and the result is not constant; distinct = distinct (text1, text2, '
         'configuration, data) digests.')
@@ -411,6 +411,56 @@ def check_dense(case):
     return PASS(bounded and spelled != bare, labels)
 
 
+@st.composite
+def dense_decimal_cases(draw, tier):
+    """Dense time, default unit ms or us, time stamps and bounds whole tens of the default unit; the bounds are also spelled
+    as decimals of the next coarser unit (1070 ms = 1.07 s): many of these decimals have no exact binary representation."""
+    du = draw(st.sampled_from(['ms', 'us']))
+    ops = st.sampled_from(['once', 'historically', 'eventually', 'always'])
+    def bounded(g):
+        a = draw(st.sampled_from([0, 0, 10, 70, 1070, 2010, 2030, 4020, 330])) if draw(st.booleans()) else 10 * draw(st.integers(0, 420))
+        b = a + 10 * draw(st.integers(0, 300))
+        return ['tun', draw(ops), a, b, g]
+    x = ['var', 'x']
+    f = bounded(draw(st.sampled_from([x, ['pred', '>=', x, ['const', 1.0]]])))
+    k = draw(st.integers(0, 2))
+    if k == 1:
+        f = bounded(f)
+    elif k == 2:
+        f = ['bin', draw(st.sampled_from(['and', 'or'])), f, bounded(['pred', '<', x, ['const', 2.0]])]
+    t = 0
+    sig = []
+    for _ in range(draw(st.integers(2, 14))):
+        sig.append([t, draw(st.sampled_from([0.0, 1.0, -1.0, 2.0, 5.0, -3.0]))])
+        t += 10 * draw(st.sampled_from([1, 7, 33, 100, 107, 201, 402]))
+    return {'formula': f, 'unit': du, 'signal': sig}
+
+
+def check_dense_decimal(case):
+    f = from_json(case['formula'])
+    du = case['unit']
+    coarse = {'ms': 's', 'us': 'ms'}[du]
+    labels = ['mode:dense-decimal', 'unit:' + du]
+
+    def bare(a, b):
+        return '[%d,%d]' % (a, b)
+
+    def spelled(a, b):
+        return '[%s%s,%s%s]' % (decimal_text(Fraction(a, 1000)), coarse, decimal_text(Fraction(b, 1000)), coarse)
+    t0, t1 = 'out = ' + F.show(f, bare), 'out = ' + F.show(f, spelled)
+    sig = {'x': [[float(t), float(v)] for t, v in case['signal']]}
+    o0 = run_ct_off(t0, ['x'], sig, unit=du)
+    o1 = run_ct_off(t1, ['x'], sig, unit=du)
+    desc = 'default unit %s\nbounds in %s: %s\nbounds in %s: %s\nsignal: %s' % (du, du, t0, coarse, t1, sig)
+    if o0[0] != 'ok':
+        return DISCARD('bare-raises(C17)', labels)
+    if o1[0] != 'ok':
+        return FAIL('dense-spelled-raises:%s' % o1[1], desc + '\nraised %s: %s at %s' % (o1[1], o1[3], o1[4]), labels)
+    if o0[1] != o1[1]:
+        return FAIL('dense-decimal-spelling-differs', desc + '\nresult with the bounds in %s: %r\nresult with the bounds in %s: %r' % (du, o0[1], coarse, o1[1]), labels)
+    return PASS(len(o0[1]) >= 2, labels)
+
+
 def cand_dense(case):
     from ..common import formula_candidates
     for f2 in formula_candidates(from_json(case['formula'])):
@@ -779,5 +829,6 @@ LANES = [
     Lane('online', lambda tier: cases(tier, 'online'), check, 1500, 20000, std_candidates),
     Lane('pastified', lambda tier: cases(tier, 'pastified'), check, 2500, 40000, std_candidates),
     Lane('reject', lambda tier: reject_cases(tier), check_reject, 1500, 20000, std_candidates),
+    Lane('dense_decimal', lambda tier: dense_decimal_cases(tier), check_dense_decimal, 1500, 15000, None),
     Lane('dense', lambda tier: dense_cases(tier), check_dense, 1500, 20000, cand_dense),
 ]
